@@ -33,8 +33,11 @@ import (
 )
 
 type plyTables struct {
-	ok       bool
-	casesOK  bool
+	ok      bool
+	casesOK bool
+	// switchIn: for each table method, the name of the function that holds its
+	// switch over the receiver (the method itself or a helper it delegates to)
+	switchIn map[string]string
 	accepted map[types.Object]bool         // Validate
 	parseTy  map[types.Object]*types.Named // label -> PLYValue type built by Parse
 	decTy    map[types.Object]*types.Named // label -> type built by DecodeBinary
@@ -90,6 +93,60 @@ func receiverSwitch(info *types.Info, fd *ast.FuncDecl) *ast.SwitchStmt {
 	return res
 }
 
+// tableSwitch: the switch over the receiver in fd, or in a helper with the
+// same receiver that fd delegates to (p.helper(...)); with the name of the
+// function that holds it.
+func tableSwitch(info *types.Info, fd *ast.FuncDecl) (*ast.SwitchStmt, string) {
+	if fd == nil {
+		return nil, ""
+	}
+	if sw := receiverSwitch(info, fd); sw != nil {
+		return sw, fd.Name.Name
+	}
+	if fd.Recv == nil || len(fd.Recv.List[0].Names) == 0 || dxFuncDecl == nil {
+		return nil, fd.Name.Name
+	}
+	recv := info.Defs[fd.Recv.List[0].Names[0]]
+	var res *ast.SwitchStmt
+	holder := fd.Name.Name
+	// the delegate is the helper whose result the method returns; the other
+	// table methods (p.Size() in a length test) are not delegates
+	tableMethods := map[string]bool{"Validate": true, "Size": true, "Parse": true, "DecodeBinary": true}
+	try := func(root ast.Node) {
+		ast.Inspect(root, func(n ast.Node) bool {
+			call, ok := n.(*ast.CallExpr)
+			if !ok || res != nil {
+				return true
+			}
+			sel, ok := call.Fun.(*ast.SelectorExpr)
+			if !ok {
+				return true
+			}
+			if id, ok := ast.Unparen(sel.X).(*ast.Ident); !ok || info.Uses[id] != recv {
+				return true
+			}
+			if fn := calleeFunc(info, call); fn != nil && !tableMethods[fn.Name()] {
+				if hd := dxFuncDecl(fn); hd != nil {
+					if hs := receiverSwitch(info, hd); hs != nil {
+						res, holder = hs, fn.Name()
+					}
+				}
+			}
+			return true
+		})
+	}
+	ast.Inspect(fd.Body, func(n ast.Node) bool {
+		if ret, ok := n.(*ast.ReturnStmt); ok && res == nil {
+			try(ret)
+		}
+		return true
+	})
+	if res == nil {
+		try(fd.Body)
+	}
+	return res, holder
+}
+
 func constObj(info *types.Info, e ast.Expr) types.Object {
 	if id, ok := ast.Unparen(e).(*ast.Ident); ok {
 		if c, ok := info.Uses[id].(*types.Const); ok {
@@ -111,6 +168,8 @@ var dxFuncDecl func(*types.Func) *ast.FuncDecl
 // (return wrap(PLYValueInt8{...}, err)).
 func returnedComposite(info *types.Info, body []ast.Stmt) *types.Named {
 	var res *types.Named
+	returned := false
+	var lastAssigned *types.Named
 	locals := map[types.Object]*types.Named{}
 	litType := func(e ast.Expr) *types.Named {
 		e = ast.Unparen(e)
@@ -134,6 +193,7 @@ func returnedComposite(info *types.Info, body []ast.Stmt) *types.Named {
 								o = info.Uses[id]
 							}
 							locals[o] = nt
+							lastAssigned = nt
 						}
 					}
 				}
@@ -142,6 +202,7 @@ func returnedComposite(info *types.Info, body []ast.Stmt) *types.Named {
 			if !ok || len(ret.Results) == 0 {
 				return true
 			}
+			returned = true
 			if nt := litType(ret.Results[0]); nt != nil {
 				res = nt
 				return true
@@ -157,6 +218,10 @@ func returnedComposite(info *types.Info, body []ast.Stmt) *types.Named {
 			}
 			return true
 		})
+	}
+	if res == nil && !returned {
+		// "result = PLYValueInt8{...}" in the clause, returned after the switch
+		return lastAssigned
 	}
 	return res
 }
@@ -283,7 +348,11 @@ func (c *Ctx) runPLYTables(prefix string) *plyTables {
 	}
 	// Validate: clauses that return nil
 	clauseLabels := func(m string) [][]types.Object {
-		sw := receiverSwitch(info, decls[m])
+		sw, holder := tableSwitch(info, decls[m])
+		if t.switchIn == nil {
+			t.switchIn = map[string]string{}
+		}
+		t.switchIn[m] = holder
 		if sw == nil {
 			c.problem("%s: no switch over the receiver found", m)
 			return nil
@@ -430,7 +499,7 @@ type parseCall struct {
 func (c *Ctx) parseCalls(p *packages.Package, fd *ast.FuncDecl) map[types.Object]parseCall {
 	info := p.TypesInfo
 	res := map[types.Object]parseCall{}
-	sw := receiverSwitch(info, fd)
+	sw, _ := tableSwitch(info, fd)
 	if sw == nil {
 		return res
 	}
@@ -541,7 +610,7 @@ func (c *Ctx) encodeWidths(p *packages.Package) map[types.Object]int64 {
 func (c *Ctx) decodeWidths(p *packages.Package, fd *ast.FuncDecl) map[types.Object]int64 {
 	info := p.TypesInfo
 	res := map[types.Object]int64{}
-	sw := receiverSwitch(info, fd)
+	sw, _ := tableSwitch(info, fd)
 	if sw == nil {
 		return res
 	}
